@@ -682,3 +682,38 @@ def extra_checks(ctx):
                              'output': tail})
     _stash_restore()
     return findings
+
+
+# ------------------------------------------------------------------ source tie (appended; harness/translate.py)
+# Order: (1) regenerate coq/gen/GenFuns.v from the Python source and re-prove GenProps/GenFunsEquivC15.v (neither
+# depends on the tables); (2) the table chain above, which now passes through GenProps/C15Src.v (it imports the
+# table theorems) before Properties/C15.v; (3) whatever of GenProps/C15Src.v, Properties/C15.v is still stale.
+from harness import translate as _translate
+CHAIN[CHAIN.index('Properties/C15.v'):CHAIN.index('Properties/C15.v')] = ['GenProps/C15Src.v']
+_tables_pre = pre
+_tables_extra_checks = extra_checks
+TRUSTED = list(TRUSTED) + [_translate.TRUSTED_NOTE]
+NOTES = list(NOTES) + [
+    'coq/gen/GenFuns.v is regenerated from the Python source at the start of every run; theorem C15_source_tie proves '
+    'the regenerated definitions equal to the hand-written model for all inputs']
+
+
+def pre(ctx):
+    _translate.pre_hook(ctx, 'C15', upto=2)
+    if not _translate._state['C15']['failed']:
+        _tables_pre(ctx)
+        if not _state['failed']:
+            _translate.pre_hook(ctx, 'C15')
+    else:
+        # the equivalence proof failed: C15Src.v / Properties/C15.v cannot compile; the table chain is still
+        # brought up to date as far as the correspondence needs it (gen/GenTables.v, Corr/C15.v)
+        _tables_pre(ctx)
+
+
+def extra_checks(ctx):
+    tie = _translate._state.get('C15') or {}
+    if tie.get('failed') and _state['failed'] in ('GenProps/C15Src.v', 'Properties/C15.v') and not (
+            _state['witness'] and _state['witness'][0] and any(v is not None for v in _state['witness'][0].values())):
+        # the table chain stopped only because the source tie does not compile: that failure is reported below
+        _state['failed'] = False
+    return list(_tables_extra_checks(ctx)) + _translate.extra_hook(ctx, 'C15')
